@@ -1074,6 +1074,10 @@ func checkField(f ast.Expr, st *types.Struct) (*types.Var, error) {
 	}
 	for i := 0; i < st.NumFields(); i++ {
 		if strings.EqualFold(strconv.Quote(st.Field(i).Name()), b.Value) {
+			if strconv.Quote(st.Field(i).Name()) != b.Value {
+				// Go field names are case-sensitive: "foo" must not select field Foo.
+				continue
+			}
 			if isPrevented(st.Tag(i)) {
 				return nil, fmt.Errorf("%s is prevented from injecting by wire", b.Value)
 			}
